@@ -308,6 +308,16 @@ def u_auto(ip):
     c.oblige("log_prior_is_transformed_density", to_sort(ip.getattr(model, "log_prior"), Real) == prior)
     c.oblige("log_lik", to_sort(ip.getattr(model, "log_lik"), Real) == lik)
     c.oblige("log_prob_is_sum", to_sort(ip.getattr(model, "log_prob"), Real) == lik + prior)
+    # "parameterised by the CURRENT values of its inputs": the distribution's parameter p is re-assigned - the default bijector (which depends on p), the
+    # back-transformed x and all three totals follow
+    np_ = z3.Const("new_p", U)
+    ip.setattr(model.f["_vars"]["p"], "value", np_)
+    bx2 = ip.uf("fwd_default_D", np_, tv)
+    prior2 = TOTAL(ip.uf("op_Add", ip.uf("logp_D", np_, bx2), ip.uf("fldj_default_D", np_, tv)))
+    lik2 = TOTAL(ip.uf("logp_Lik", bx2, vy))
+    c.oblige("after_reassigning_the_parameter.log_prior_is_transformed_density", to_sort(ip.getattr(model, "log_prior"), Real) == prior2)
+    c.oblige("after_reassigning_the_parameter.log_lik", to_sort(ip.getattr(model, "log_lik"), Real) == lik2)
+    c.oblige("after_reassigning_the_parameter.log_prob_is_sum", to_sort(ip.getattr(model, "log_prob"), Real) == lik2 + prior2)
 
 
 def distreg_builder(ip, int_rank=False):
